@@ -520,7 +520,7 @@ func ruleC12(c *Ctx) {
 					lim = e
 				case e.Callee == "io.ReadAll":
 					ra = e
-				case strings.HasPrefix(e.Callee, "dynamic:"):
+				case strings.HasPrefix(e.Callee, "dynamic:") && len(e.Args) == 2 && isDecoderSig(e.Args[0].Type()):
 					decs = append(decs, e)
 				}
 			}
@@ -539,7 +539,22 @@ func ruleC12(c *Ctx) {
 			}
 			c.check(firstOK, "C12-R4", fname, "first attempt decodes the caller's bytes", c.P.InstrPos(decs[0].Instr), "decoder(data)", "first attempt is "+ap(decs[0].Args[0])+"("+ap(decs[0].Args[1])+")")
 			if fl == nil {
-				// no inflate on this path: must be the first-attempt success
+				// no inflate on this path: the first-attempt success — or a rejection under a negative limit, within which no
+				// compressed message lies
+				if t.Kind == "return" && errIdx < len(t.Vals) && !t.accepting(md.Root) && t.errNonNil(t.Vals[errIdx]) {
+					negLimit := false
+					for _, f := range t.St.facts {
+						if b, isB := f.Cond.(*BinV); isB && b.Op == token.LSS && f.Pol && isConstInt(b.Y, 0) {
+							if p, isP := b.X.(*ParamV); isP && isIntType(p.Type()) {
+								negLimit = true
+							}
+						}
+					}
+					if negLimit {
+						c.ok("C12-R4", fname, "rejection without inflating only under a negative limit", pos, "limit < 0 on the path")
+						continue
+					}
+				}
 				r0, k := t.eqFact(decs[0].Res[0], nilOf(nil))
 				c.check(t.accepting(md.Root) && k && r0 && len(decs) == 1, "C12-R4", fname, "uncompressed success returns nil", pos, "decoder(data) == nil", "path without inflate is not the plain first-attempt success")
 				continue
@@ -677,7 +692,7 @@ func ruleC12(c *Ctx) {
 					}
 				}
 				c.check(same, "C12-R4", fname, "second attempt's result returned unchanged ["+maxAP+"]", pos, "return decoder(deflated)", "returns "+ap(t.Vals[errIdx]))
-			} else if t.Kind == "return" {
+			} else if t.Kind == "return" && errIdx < len(t.Vals) {
 				// rejecting without second decode: error non-nil
 				c.check(t.errNonNil(t.Vals[errIdx]), "C12-R3", fname, "over-limit / read failure returns an error ["+maxAP+"]", pos, ap(t.Vals[errIdx]), "path ends without decoding and without a non-nil error: "+ap(t.Vals[errIdx]))
 			}
@@ -711,7 +726,12 @@ func ruleC12(c *Ctx) {
 							c.check(d != nil && ap(d) == fmt.Sprint(defaultMax), "C12-R5", shortFn(r.Root), "default limit handed to "+callee, c.P.InstrPos(e.Instr), fmt.Sprint(defaultMax), "the fallback limit passed is "+apOrNone(d)+", want the 5 MiB default")
 						}
 					}
-					c.check(got != nil && ap(got) == want, "C12-R5", shortFn(r.Root), "limit passed to "+callee, c.P.InstrPos(e.Instr), want, "limit is "+apOrNone(got)+", want "+want)
+					okLimit := got != nil && ap(got) == want
+					if !okLimit && got != nil && want == "SP.MaximumDecompressedBodySize" && ap(got) == fmt.Sprint(defaultMax) && t.atoms()[want+" == 0"] {
+						// the default applied one call earlier: maybeDeflate would have replaced the 0 by the same constant
+						okLimit = true
+					}
+					c.check(okLimit, "C12-R5", shortFn(r.Root), "limit passed to "+callee, c.P.InstrPos(e.Instr), want, "limit is "+apOrNone(got)+", want "+want)
 				}
 			}
 		}
@@ -732,7 +752,16 @@ func ruleC12(c *Ctx) {
 	c.floor("C12-R5/limit-kernels", 7)
 	// no other caller of the two routines
 	scanCalls(c.P, c.P.LibFns, func(s string) bool { return shortName(s) == "maybeDeflate" }, func(s callSite) {
-		c.check(c.P.withinOnly(s.Caller, allowNames("parseResponse", "DecodeUnverifiedBaseResponse", "DecodeUnverifiedLogoutResponse")), "C12-R5", shortFn(s.Caller), "caller of maybeDeflate", c.P.InstrPos(s.Instr), "analysed caller", "new caller of maybeDeflate: its limit is not analysed")
+		okCaller := c.P.withinOnly(s.Caller, allowNames("parseResponse", "DecodeUnverifiedBaseResponse", "DecodeUnverifiedLogoutResponse"))
+		why := "analysed caller"
+		if !okCaller && len(s.Instr.Common().Args) >= 2 {
+			// any other caller: the limit it passes is the default, the configured limit, or its own parameter for which the
+			// same holds at every call site
+			if w, ok := limitArgOK(c.P, s.Caller, s.Instr.Common().Args[1], 0); ok {
+				okCaller, why = true, "limit argument is "+w
+			}
+		}
+		c.check(okCaller, "C12-R5", shortFn(s.Caller), "caller of maybeDeflate", c.P.InstrPos(s.Instr), why, "new caller of maybeDeflate: its limit is not analysed")
 	})
 	scanCalls(c.P, c.P.LibFns, func(s string) bool { return shortName(s) == "parseResponse" }, func(s callSite) {
 		okCaller := c.P.withinOnly(s.Caller, allowNames(ssoSpec.Entry, loRespSpec.Entry, loReqSpec.Entry, "(*SAMLServiceProvider).decryptAssertions"))
@@ -1076,4 +1105,74 @@ func atCallSite(t *Terminal, expr Val, args []Val) Val {
 		return newReader(t).field(base, x.Name)
 	}
 	return nil
+}
+
+// isDecoderSig: func([]byte) error — the decoder callback of maybeDeflate (other function-typed parameters, e.g. an
+// observer, are not decode attempts).
+func isDecoderSig(t types.Type) bool {
+	if t == nil {
+		return false
+	}
+	sg, ok := t.Underlying().(*types.Signature)
+	if !ok || sg.Params().Len() != 1 || sg.Results().Len() != 1 {
+		return false
+	}
+	return typeStr(sg.Params().At(0).Type()) == "[]byte" && typeStr(sg.Results().At(0).Type()) == "error"
+}
+
+// limitArgOK: the decompression limit passed at a call site is 0 / the 5 MiB default, the provider's
+// MaximumDecompressedBodySize, or the caller's own integer parameter that receives one of those at each of its call sites.
+func limitArgOK(p *Prog, caller *ssa.Function, v ssa.Value, depth int) (string, bool) {
+	if depth > 3 {
+		return "", false
+	}
+	switch x := v.(type) {
+	case *ssa.Const:
+		if x.Value != nil && (x.Int64() == 0 || x.Int64() == defaultMax) {
+			return "the default", true
+		}
+	case *ssa.Convert:
+		return limitArgOK(p, caller, x.X, depth)
+	case *ssa.UnOp:
+		if fa, ok := x.X.(*ssa.FieldAddr); ok && x.Op == token.MUL {
+			if st, ok := derefStruct(fa.X.Type()); ok && strings.HasSuffix(typeStr(st), "SAMLServiceProvider") && st.Underlying().(*types.Struct).Field(fa.Field).Name() == "MaximumDecompressedBodySize" {
+				return "the configured limit", true
+			}
+		}
+	case *ssa.Parameter:
+		idx := -1
+		for i, q := range caller.Params {
+			if q == x {
+				idx = i
+			}
+		}
+		cs := p.callerIndex()[caller]
+		if idx < 0 || len(cs) == 0 {
+			return "", false
+		}
+		for cc := range cs {
+			found := false
+			for _, b := range cc.Blocks {
+				for _, in := range b.Instrs {
+					call, ok := in.(ssa.CallInstruction)
+					if !ok || call.Common().StaticCallee() != caller {
+						continue
+					}
+					found = true
+					args := call.Common().Args
+					if idx >= len(args) {
+						return "", false
+					}
+					if _, ok := limitArgOK(p, cc, args[idx], depth+1); !ok {
+						return "", false
+					}
+				}
+			}
+			if !found {
+				return "", false
+			}
+		}
+		return "the caller's parameter, itself the default or the configured limit at every call site", true
+	}
+	return "", false
 }
